@@ -954,6 +954,19 @@ def classify(failure):
     if failure.get('kind') == 'decode-refused' and failure.get('exc') == 'NotImplementedError' and \
             any(f.startswith('unctx-constructed-alternative:') for f in feats):
         return 'C03-K1'
+    # recorded deviations of a table from the standard's production: exactly the recorded element differs,
+    # in exactly the recorded way (anything else about the same production is a new violation)
+    if failure.get('kind') == 'schema-differs-from-standard' and 'implementation' in failure:
+        imp, std = failure['implementation'], failure['standard']
+        if len(imp) == len(std):
+            diff = [(i, g, w) for i, (g, w) in enumerate(zip(imp, std)) if list(g) != list(w)]
+            prod = failure.get('production')
+            if prod == 'NotificationParametersExtendedParametersType' and diff == [(8, [None, 'cons'], [0, 'cons'])]:
+                return 'C03-K1'
+            if prod == 'NotificationParametersExtended' and diff == [(2, [2, False, 'cons'], [2, False, 'seqof'])]:
+                return 'C03-K3'
+            if prod == 'NotificationParameters' and diff == [(6, [6, 'cons'], [6, 'seqof'])]:
+                return 'C03-K4'
     return None
 
 
